@@ -1,1 +1,557 @@
 // Kani contract harnesses for /repo/arrow-buffer/src/builder/boolean.rs (child module: sees private items via super::)
+use super::*;
+#[path = "/verif/kani/support/spec.rs"]
+mod spec;
+#[allow(unused_imports)]
+use spec::*;
+
+// ---------------------------------------------------------------------------------------------
+// Shared harness helpers (spec side). Nothing here calls the code under test.
+// ---------------------------------------------------------------------------------------------
+
+/// N <= 64 fully symbolic bytes built without a loop (lets a harness use a small unwind bound).
+#[allow(dead_code)]
+fn any_bytes<const N: usize>() -> [u8; N] {
+    let w: (u128, u128, u128, u128) = (kani::any(), kani::any(), kani::any(), kani::any());
+    let full: [u8; 64] = unsafe { std::mem::transmute(w) };
+    let mut out = [0u8; N];
+    out.copy_from_slice(&full[..N]);
+    out
+}
+#[allow(dead_code)]
+fn mask(b: bool) -> u64 { if b { u64::MAX } else { 0 } }
+
+// STUB (listed): `core::ptr::align_offset`, the single address-dependent step of
+// `<[u8]>::align_to::<u64>()`. CBMC cannot constant-fold an address during symbolic execution, so
+// without it every slice length after `align_to` is symbolic (measured: out of memory / > 5 min).
+// The stub returns the exact value of the real function for a pointer whose address is congruent
+// to the harness-supplied skew modulo 8, and it *asserts* that congruence on the real address, so
+// nothing is assumed about the allocator; the rest of the real `align_to` runs unchanged.
+// The k-th call uses ALIGN_SKEWS[k] (control flow is concrete, so k is concrete).
+#[allow(dead_code)]
+static mut ALIGN_SKEWS: [usize; 6] = [0; 6];
+#[allow(dead_code)]
+static mut ALIGN_CALLS: usize = 0;
+#[allow(dead_code)]
+fn set_skews(s: [usize; 6]) { unsafe { ALIGN_SKEWS = s; ALIGN_CALLS = 0; } }
+/// builder for the list of expected `align_to` calls of one harness (bookkeeping only: a wrong
+/// prediction makes the stub's address assertion fail, it can never hide a violation)
+#[derive(Clone, Copy)]
+#[allow(dead_code)]
+struct Skews { s: [usize; 6], n: usize }
+#[allow(dead_code)]
+fn skews() -> Skews { Skews { s: [0; 6], n: 0 } }
+#[allow(dead_code)]
+impl Skews {
+    /// one `align_to` call on a slice that starts `sk` bytes past an 8-byte aligned address
+    fn raw(mut self, sk: usize) -> Self { self.s[self.n] = sk % 8; self.n += 1; self }
+    /// the `align_to` call of `UnalignedBitChunk::new(bytes, off, len)` (made only when the addressed
+    /// byte range is longer than 16 bytes), `bytes` starting `sk` bytes past an 8-byte aligned address
+    fn ubc(self, sk: usize, off: usize, len: usize) -> Self {
+        if len > 0 && (len + off % 8 + 7) / 8 > 16 { self.raw(sk + off / 8) } else { self }
+    }
+    fn install(self) { unsafe { ALIGN_SKEWS = self.s; ALIGN_CALLS = 0; } }
+}
+#[allow(dead_code)]
+unsafe fn stub_align_offset<T>(p: *const T, a: usize) -> usize {
+    assert!(std::mem::size_of::<T>() == 1 && a == 8);
+    let k = unsafe { ALIGN_CALLS };
+    assert!(k < 6);
+    unsafe { ALIGN_CALLS = k + 1 };
+    let skew = unsafe { ALIGN_SKEWS[k] } % a;
+    assert!((p as usize) % a == skew);
+    (a - skew) % a
+}
+macro_rules! inst {
+    ($name:ident, $unwind:expr, $call:expr) => {
+        #[kani::proof]
+        #[kani::unwind($unwind)]
+        #[kani::stub(core::ptr::align_offset, stub_align_offset)]
+        fn $name() { $call }
+    };
+}
+
+// ---------------------------------------------------------------------------------------------
+// Model: the sequence of booleans a Vec<bool> would hold under the same operations
+// (fixed-capacity array + length so that the spec side allocates nothing).
+// ---------------------------------------------------------------------------------------------
+const MAXM: usize = 420;
+struct Model { v: [bool; MAXM], n: usize }
+impl Model {
+    fn new() -> Self { Model { v: [false; MAXM], n: 0 } }
+    fn push(&mut self, b: bool) { self.v[self.n] = b; self.n += 1; }
+    fn push_n(&mut self, k: usize, b: bool) { let mut i = 0; while i < k { self.push(b); i += 1; } }
+    fn push_slice(&mut self, s: &[bool]) { let mut i = 0; while i < s.len() { self.push(s[i]); i += 1; } }
+    fn push_bits(&mut self, bytes: &[u8], start: usize, len: usize) { let mut i = 0; while i < len { self.push(bit(bytes, start + i)); i += 1; } }
+    /// Vec::truncate: no effect when k > len
+    fn truncate(&mut self, k: usize) { if k <= self.n { self.n = k; } }
+    /// Vec::resize(k, false)
+    fn resize(&mut self, k: usize) { if k <= self.n { self.n = k; } else { self.push_n(k - self.n, false); } }
+}
+
+/// observable state of the builder == model: len, every bit below len, and the byte slice is exactly
+/// ceil(len/8) bytes long (bytes beyond it are not observable)
+fn check(b: &BooleanBufferBuilder, m: &Model) {
+    assert!(b.len() == m.n && b.is_empty() == (m.n == 0));
+    assert!(b.as_slice().len() == (m.n + 7) / 8);
+    assert!(b.capacity() >= m.n);
+    if m.n > 0 {
+        let i: usize = kani::any();
+        kani::assume(i < m.n);
+        assert!(b.get_bit(i) == m.v[i]);
+        assert!(bit(b.as_slice(), i) == m.v[i]);
+    }
+}
+/// finish(): returns the model as a BooleanBuffer and leaves an empty, reusable builder
+fn check_finish(b: &mut BooleanBufferBuilder, m: &Model) {
+    let out = b.finish();
+    assert!(out.len() == m.n);
+    assert!(out.offset() + out.len() <= 8 * out.values().len());
+    if m.n > 0 {
+        let i: usize = kani::any();
+        kani::assume(i < m.n);
+        assert!(out.value(i) == m.v[i]);
+        kani::cover!(out.value(i));
+        kani::cover!(!out.value(i));
+    }
+    assert!(b.len() == 0 && b.is_empty() && b.as_slice().is_empty());
+}
+
+fn seq_append<const CAP: usize, const N1: usize, const N2: usize>() {
+    let (v1, v2, v3, v4): (bool, bool, bool, bool) = (kani::any(), kani::any(), kani::any(), kani::any());
+    let mut b = BooleanBufferBuilder::new(CAP);
+    assert!(b.len() == 0 && b.is_empty() && b.capacity() >= CAP);
+    let mut m = Model::new();
+    b.append_n(N1, v1); m.push_n(N1, v1);
+    b.append(v2); m.push(v2);
+    b.append_n(N2, v3); m.push_n(N2, v3);
+    b.append(v4); m.push(v4);
+    check(&b, &m);
+    check_finish(&mut b, &m);
+    kani::cover!(v1 && !v2 && v3 && !v4);
+    kani::cover!(!v1 && v2 && !v3 && v4);
+}
+// Contract (C19/C01) BooleanBufferBuilder::{new, append, append_n, len, is_empty, get_bit, as_slice,
+// capacity, finish}: after new(cap); append_n(n1, v1); append(v2); append_n(n2, v3); append(v4) with
+// symbolic values, the builder is observably the Vec<bool> built by the same pushes (length, every
+// bit, byte slice of exactly ceil(len/8) bytes); finish returns that sequence as a BooleanBuffer
+// inside its byte buffer and leaves an empty builder.
+// @unit name=bbb_append_0_7_0 props=C19,C01 kind=bounded bound=ops=4_shape_(cap,n1,n2)=(0,7,0)_values_symbolic fns=BooleanBufferBuilder::new,BooleanBufferBuilder::append,BooleanBufferBuilder::append_n,BooleanBufferBuilder::finish,BooleanBufferBuilder::len,BooleanBufferBuilder::get_bit tier=thorough timeout=240 note=not_confirmed_under_load
+inst!(bbb_append_0_7_0, 12, seq_append::<0, 7, 0>());
+// @unit name=bbb_append_0_3_62 props=C19,C01 kind=bounded bound=ops=4_shape_(cap,n1,n2)=(0,3,62)_values_symbolic fns=BooleanBufferBuilder::new,BooleanBufferBuilder::append,BooleanBufferBuilder::append_n,BooleanBufferBuilder::finish,BooleanBufferBuilder::len,BooleanBufferBuilder::get_bit tier=thorough timeout=240 note=not_confirmed_under_load
+inst!(bbb_append_0_3_62, 65, seq_append::<0, 3, 62>());
+// @unit name=bbb_append_100_63_64 props=C19,C01 kind=bounded bound=ops=4_shape_(cap,n1,n2)=(100,63,64)_values_symbolic fns=BooleanBufferBuilder::new,BooleanBufferBuilder::append,BooleanBufferBuilder::append_n,BooleanBufferBuilder::finish,BooleanBufferBuilder::len,BooleanBufferBuilder::get_bit tier=thorough timeout=240 note=not_confirmed_under_load
+inst!(bbb_append_100_63_64, 67, seq_append::<100, 63, 64>());
+// @unit name=bbb_append_0_0_0 props=C19,C01 kind=bounded bound=ops=4_shape_(cap,n1,n2)=(0,0,0)_values_symbolic fns=BooleanBufferBuilder::new,BooleanBufferBuilder::append,BooleanBufferBuilder::append_n,BooleanBufferBuilder::finish,BooleanBufferBuilder::len,BooleanBufferBuilder::get_bit tier=thorough timeout=240 note=not_confirmed_under_load
+inst!(bbb_append_0_0_0, 12, seq_append::<0, 0, 0>());
+// @unit name=bbb_append_8_64_1 props=C19,C01 kind=bounded bound=ops=4_shape_(cap,n1,n2)=(8,64,1)_values_symbolic fns=BooleanBufferBuilder::new,BooleanBufferBuilder::append,BooleanBufferBuilder::append_n,BooleanBufferBuilder::finish,BooleanBufferBuilder::len,BooleanBufferBuilder::get_bit tier=thorough timeout=240 note=not_confirmed_under_load
+inst!(bbb_append_8_64_1, 67, seq_append::<8, 64, 1>());
+// @unit name=bbb_append_0_127_70 props=C19,C01 kind=bounded bound=ops=4_shape_(cap,n1,n2)=(0,127,70)_values_symbolic fns=BooleanBufferBuilder::new,BooleanBufferBuilder::append,BooleanBufferBuilder::append_n,BooleanBufferBuilder::finish,BooleanBufferBuilder::len,BooleanBufferBuilder::get_bit tier=thorough timeout=240 note=not_confirmed_under_load
+inst!(bbb_append_0_127_70, 130, seq_append::<0, 127, 70>());
+
+fn seq_truncate<const N1: usize, const T: usize, const K: usize>() {
+    let (v1, v2): (bool, bool) = (kani::any(), kani::any());
+    let mut b = BooleanBufferBuilder::new(0);
+    let mut m = Model::new();
+    b.append_n(N1, v1); m.push_n(N1, v1);
+    b.truncate(T); m.truncate(T);
+    check(&b, &m);
+    b.advance(K); m.push_n(K, false);
+    b.append(v2); m.push(v2);
+    check(&b, &m);
+    check_finish(&mut b, &m);
+    kani::cover!(v1 && v2);
+    kani::cover!(!v1 && !v2);
+}
+// Contract (C19/C01) BooleanBufferBuilder::{truncate, advance}: after append_n(n1, v1); truncate(t);
+// advance(k); append(v2) the builder equals the model Vec<bool> under truncate(t) (no effect when
+// t > len), k pushes of false, one push: in particular the values dropped by truncate are never
+// visible again (advance yields false even where true bits were truncated away).
+// @unit name=bbb_truncate_13_5_6 props=C19,C01 kind=bounded bound=ops=4_shape_(n1,truncate_to,advance)=(13,5,6)_values_symbolic fns=BooleanBufferBuilder::truncate,BooleanBufferBuilder::advance,BooleanBufferBuilder::append tier=thorough timeout=240 note=not_confirmed_under_load
+inst!(bbb_truncate_13_5_6, 16, seq_truncate::<13, 5, 6>());
+// @unit name=bbb_truncate_70_63_3 props=C19,C01 kind=bounded bound=ops=4_shape_(n1,truncate_to,advance)=(70,63,3)_values_symbolic fns=BooleanBufferBuilder::truncate,BooleanBufferBuilder::advance,BooleanBufferBuilder::append tier=thorough timeout=240 note=not_confirmed_under_load
+inst!(bbb_truncate_70_63_3, 73, seq_truncate::<70, 63, 3>());
+// @unit name=bbb_truncate_20_16_9 props=C19,C01 kind=bounded bound=ops=4_shape_(n1,truncate_to,advance)=(20,16,9)_values_symbolic fns=BooleanBufferBuilder::truncate,BooleanBufferBuilder::advance,BooleanBufferBuilder::append tier=thorough timeout=240 note=not_confirmed_under_load
+inst!(bbb_truncate_20_16_9, 23, seq_truncate::<20, 16, 9>());
+// @unit name=bbb_truncate_9_12_2 props=C19,C01 kind=bounded bound=ops=4_shape_(n1,truncate_to,advance)=(9,12,2)_values_symbolic fns=BooleanBufferBuilder::truncate,BooleanBufferBuilder::advance,BooleanBufferBuilder::append tier=thorough timeout=240 note=not_confirmed_under_load
+inst!(bbb_truncate_9_12_2, 12, seq_truncate::<9, 12, 2>());
+// @unit name=bbb_truncate_66_0_1 props=C19,C01 kind=bounded bound=ops=4_shape_(n1,truncate_to,advance)=(66,0,1)_values_symbolic fns=BooleanBufferBuilder::truncate,BooleanBufferBuilder::advance,BooleanBufferBuilder::append tier=thorough timeout=240 note=not_confirmed_under_load
+inst!(bbb_truncate_66_0_1, 69, seq_truncate::<66, 0, 1>());
+// @unit name=bbb_truncate_130_65_64 props=C19,C01 kind=bounded bound=ops=4_shape_(n1,truncate_to,advance)=(130,65,64)_values_symbolic fns=BooleanBufferBuilder::truncate,BooleanBufferBuilder::advance,BooleanBufferBuilder::append tier=thorough timeout=240 note=not_confirmed_under_load
+inst!(bbb_truncate_130_65_64, 133, seq_truncate::<130, 65, 64>());
+
+fn seq_resize<const N1: usize, const R1: usize, const R2: usize>() {
+    let s: [bool; N1] = kani::any();
+    let mut b = BooleanBufferBuilder::new(N1);
+    let mut m = Model::new();
+    b.append_slice(&s); m.push_slice(&s);
+    check(&b, &m);
+    b.resize(R1); m.resize(R1);
+    check(&b, &m);
+    b.resize(R2); m.resize(R2);
+    check(&b, &m);
+    check_finish(&mut b, &m);
+}
+// Contract (C19/C01) BooleanBufferBuilder::{append_slice, resize}: after append_slice(s) (symbolic
+// values); resize(r1); resize(r2) the builder equals the model under Vec::resize(_, false): shrinking
+// drops values, growing appends false values (never stale bits).
+// @unit name=bbb_resize_13_5_11 props=C19,C01 kind=bounded bound=ops=3_shape_(n1,resize1,resize2)=(13,5,11)_values_symbolic fns=BooleanBufferBuilder::append_slice,BooleanBufferBuilder::resize tier=thorough timeout=240 note=not_confirmed_under_load
+inst!(bbb_resize_13_5_11, 16, seq_resize::<13, 5, 11>());
+// @unit name=bbb_resize_10_70_64 props=C19,C01 kind=bounded bound=ops=3_shape_(n1,resize1,resize2)=(10,70,64)_values_symbolic fns=BooleanBufferBuilder::append_slice,BooleanBufferBuilder::resize tier=thorough timeout=240 note=not_confirmed_under_load
+inst!(bbb_resize_10_70_64, 73, seq_resize::<10, 70, 64>());
+// @unit name=bbb_resize_65_8_9 props=C19,C01 kind=bounded bound=ops=3_shape_(n1,resize1,resize2)=(65,8,9)_values_symbolic fns=BooleanBufferBuilder::append_slice,BooleanBufferBuilder::resize tier=thorough timeout=240 note=not_confirmed_under_load
+inst!(bbb_resize_65_8_9, 68, seq_resize::<65, 8, 9>());
+// @unit name=bbb_resize_3_3_0 props=C19,C01 kind=bounded bound=ops=3_shape_(n1,resize1,resize2)=(3,3,0)_values_symbolic fns=BooleanBufferBuilder::append_slice,BooleanBufferBuilder::resize tier=thorough timeout=240 note=not_confirmed_under_load
+inst!(bbb_resize_3_3_0, 12, seq_resize::<3, 3, 0>());
+
+fn seq_set_bit<const N1: usize, const K: usize>() {
+    let v1: bool = kani::any();
+    let s: [bool; K] = kani::any();
+    let mut b = BooleanBufferBuilder::new(0);
+    let mut m = Model::new();
+    b.append_n(N1, v1); m.push_n(N1, v1);
+    b.append_slice(&s); m.push_slice(&s);
+    check(&b, &m);
+    let (j, w): (usize, bool) = (kani::any(), kani::any());
+    kani::assume(j < N1 + K);
+    b.set_bit(j, w); m.v[j] = w;
+    assert!(b.get_bit(j) == w);
+    check(&b, &m); // frame: every other bit unchanged, length unchanged
+    let x: bool = kani::any();
+    b.append(x); m.push(x);
+    check(&b, &m);
+    check_finish(&mut b, &m);
+    kani::cover!(w && j < N1);
+    kani::cover!(!w && j >= N1);
+}
+// Contract (C19/C01) BooleanBufferBuilder::{append_slice, set_bit, get_bit}: after append_n(n1, v);
+// append_slice(s); set_bit(j, w) for a symbolic j < len, bit j reads w, every other bit and the
+// length are unchanged (frame), and a following append lands at position len.
+// @unit name=bbb_set_bit_5_6 props=C19,C01 kind=bounded bound=ops=4_shape_(n1,slice_len)=(5,6)_values_and_index_symbolic fns=BooleanBufferBuilder::set_bit,BooleanBufferBuilder::get_bit,BooleanBufferBuilder::append_slice tier=thorough timeout=240 note=not_confirmed_under_load
+inst!(bbb_set_bit_5_6, 12, seq_set_bit::<5, 6>());
+// @unit name=bbb_set_bit_60_10 props=C19,C01 kind=bounded bound=ops=4_shape_(n1,slice_len)=(60,10)_values_and_index_symbolic fns=BooleanBufferBuilder::set_bit,BooleanBufferBuilder::get_bit,BooleanBufferBuilder::append_slice tier=thorough timeout=240 note=not_confirmed_under_load
+inst!(bbb_set_bit_60_10, 63, seq_set_bit::<60, 10>());
+// @unit name=bbb_set_bit_0_9 props=C19,C01 kind=bounded bound=ops=4_shape_(n1,slice_len)=(0,9)_values_and_index_symbolic fns=BooleanBufferBuilder::set_bit,BooleanBufferBuilder::get_bit,BooleanBufferBuilder::append_slice tier=thorough timeout=240 note=not_confirmed_under_load
+inst!(bbb_set_bit_0_9, 12, seq_set_bit::<0, 9>());
+
+fn seq_packed<const W: usize, const START: usize, const LEN: usize, const NB: usize>() {
+    let (v1, x): (bool, bool) = (kani::any(), kani::any());
+    let bytes: [u8; NB] = any_bytes();
+    let mut b = BooleanBufferBuilder::new(0);
+    let mut m = Model::new();
+    b.append_n(W, v1); m.push_n(W, v1);
+    b.append_packed_range(START..START + LEN, &bytes); m.push_bits(&bytes, START, LEN);
+    check(&b, &m);
+    b.append(x); m.push(x);
+    check(&b, &m);
+    check_finish(&mut b, &m);
+    kani::cover!(v1 && !x);
+    kani::cover!(!v1 && x);
+}
+// Contract (C19/C01) BooleanBufferBuilder::append_packed_range(range, bytes): after append_n(w, v) the
+// call appends exactly the bits range.start..range.end of `bytes` (all bytes symbolic: bits outside
+// the range are not read as data), leaves the first w values unchanged (not modified), and a
+// following append lands right after them.
+// @unit name=bbb_packed_0_0_64 props=C19,C01 kind=bounded bound=ops=3_grid_(write_offset,read_offset,len,bytes)=(0,0,64,9) fns=BooleanBufferBuilder::append_packed_range tier=thorough timeout=300 note=not_confirmed_under_load
+inst!(bbb_packed_0_0_64, 67, seq_packed::<0, 0, 64, 9>());
+// @unit name=bbb_packed_0_3_12 props=C19,C01 kind=bounded bound=ops=3_grid_(write_offset,read_offset,len,bytes)=(0,3,12,3) fns=BooleanBufferBuilder::append_packed_range tier=thorough timeout=300 note=not_confirmed_under_load
+inst!(bbb_packed_0_3_12, 15, seq_packed::<0, 3, 12, 3>());
+// @unit name=bbb_packed_3_0_12 props=C19,C01 kind=bounded bound=ops=3_grid_(write_offset,read_offset,len,bytes)=(3,0,12,3) fns=BooleanBufferBuilder::append_packed_range tier=thorough timeout=300 note=not_confirmed_under_load
+inst!(bbb_packed_3_0_12, 15, seq_packed::<3, 0, 12, 3>());
+// @unit name=bbb_packed_5_7_70 props=C19,C01 kind=bounded bound=ops=3_grid_(write_offset,read_offset,len,bytes)=(5,7,70,11) fns=BooleanBufferBuilder::append_packed_range tier=thorough timeout=300 note=not_confirmed_under_load
+inst!(bbb_packed_5_7_70, 73, seq_packed::<5, 7, 70, 11>());
+// @unit name=bbb_packed_8_8_130 props=C19,C01 kind=bounded bound=ops=3_grid_(write_offset,read_offset,len,bytes)=(8,8,130,19) fns=BooleanBufferBuilder::append_packed_range tier=thorough timeout=300 note=not_confirmed_under_load
+inst!(bbb_packed_8_8_130, 133, seq_packed::<8, 8, 130, 19>());
+// @unit name=bbb_packed_61_1_6 props=C19,C01 kind=bounded bound=ops=3_grid_(write_offset,read_offset,len,bytes)=(61,1,6,2) fns=BooleanBufferBuilder::append_packed_range tier=thorough timeout=300 note=not_confirmed_under_load
+inst!(bbb_packed_61_1_6, 64, seq_packed::<61, 1, 6, 2>());
+// @unit name=bbb_packed_3_5_0 props=C19,C01 kind=bounded bound=ops=3_grid_(write_offset,read_offset,len,bytes)=(3,5,0,2) fns=BooleanBufferBuilder::append_packed_range tier=thorough timeout=300 note=not_confirmed_under_load
+inst!(bbb_packed_3_5_0, 12, seq_packed::<3, 5, 0, 2>());
+// @unit name=bbb_packed_7_63_65 props=C19,C01 kind=bounded bound=ops=3_grid_(write_offset,read_offset,len,bytes)=(7,63,65,17) fns=BooleanBufferBuilder::append_packed_range tier=thorough timeout=300 note=not_confirmed_under_load
+inst!(bbb_packed_7_63_65, 68, seq_packed::<7, 63, 65, 17>());
+// @unit name=bbb_packed_64_2_128 props=C19,C01 kind=bounded bound=ops=3_grid_(write_offset,read_offset,len,bytes)=(64,2,128,18) fns=BooleanBufferBuilder::append_packed_range tier=thorough timeout=300 note=not_confirmed_under_load
+inst!(bbb_packed_64_2_128, 131, seq_packed::<64, 2, 128, 18>());
+// @unit name=bbb_packed_1_130_200 props=C19,C01 kind=bounded bound=ops=3_grid_(write_offset,read_offset,len,bytes)=(1,130,200,43) fns=BooleanBufferBuilder::append_packed_range tier=thorough timeout=300 note=not_confirmed_under_load
+inst!(bbb_packed_1_130_200, 203, seq_packed::<1, 130, 200, 43>());
+// @unit name=bbb_packed_13_0_3 props=C19,C01 kind=bounded bound=ops=3_grid_(write_offset,read_offset,len,bytes)=(13,0,3,2) fns=BooleanBufferBuilder::append_packed_range tier=thorough timeout=300 note=not_confirmed_under_load
+inst!(bbb_packed_13_0_3, 16, seq_packed::<13, 0, 3, 2>());
+
+fn seq_append_buffer<const W: usize, const OFF: usize, const LEN: usize, const NB: usize>() {
+    let (v1, x): (bool, bool) = (kani::any(), kani::any());
+    let bytes: [u8; NB] = any_bytes();
+    let src = BooleanBuffer::new(Buffer::from_slice_ref(&bytes), OFF, LEN);
+    let mut b = BooleanBufferBuilder::new(0);
+    let mut m = Model::new();
+    b.append_n(W, v1); m.push_n(W, v1);
+    b.append_buffer(&src); m.push_bits(&bytes, OFF, LEN);
+    b.append(x); m.push(x);
+    check(&b, &m);
+    check_finish(&mut b, &m);
+    // the source is unchanged
+    if LEN > 0 {
+        let i: usize = kani::any();
+        kani::assume(i < LEN);
+        assert!(src.value(i) == bit(&bytes, OFF + i));
+    }
+}
+// Contract (C19/C01) BooleanBufferBuilder::append_buffer(&BooleanBuffer): appends exactly the values of
+// the (offset, len) view, earlier values and the source unchanged.
+// @unit name=bbb_append_buffer_3_5_12 props=C19,C01 kind=bounded bound=ops=3_grid_(write_offset,src_offset,len)=(3,5,12) fns=BooleanBufferBuilder::append_buffer tier=thorough timeout=300 note=not_confirmed_under_load
+inst!(bbb_append_buffer_3_5_12, 15, seq_append_buffer::<3, 5, 12, 4>());
+// @unit name=bbb_append_buffer_0_64_65 props=C19,C01 kind=bounded bound=ops=3_grid_(write_offset,src_offset,len)=(0,64,65) fns=BooleanBufferBuilder::append_buffer tier=thorough timeout=300 note=not_confirmed_under_load
+inst!(bbb_append_buffer_0_64_65, 68, seq_append_buffer::<0, 64, 65, 18>());
+// @unit name=bbb_append_buffer_9_0_0 props=C19,C01 kind=bounded bound=ops=3_grid_(write_offset,src_offset,len)=(9,0,0) fns=BooleanBufferBuilder::append_buffer tier=thorough timeout=300 note=not_confirmed_under_load
+inst!(bbb_append_buffer_9_0_0, 12, seq_append_buffer::<9, 0, 0, 2>());
+// @unit name=bbb_append_buffer_62_3_70 props=C19,C01 kind=bounded bound=ops=3_grid_(write_offset,src_offset,len)=(62,3,70) fns=BooleanBufferBuilder::append_buffer tier=thorough timeout=300 note=not_confirmed_under_load
+inst!(bbb_append_buffer_62_3_70, 73, seq_append_buffer::<62, 3, 70, 11>());
+
+fn seq_finish_reuse<const N1: usize, const N2: usize>() {
+    let v1: bool = kani::any();
+    let s: [bool; N2] = kani::any();
+    let mut b = BooleanBufferBuilder::new(8);
+    let mut m = Model::new();
+    b.append_n(N1, v1); m.push_n(N1, v1);
+    check_finish(&mut b, &m);
+    // reuse after finish: nothing of the first sequence is visible
+    let mut m = Model::new();
+    b.append_slice(&s); m.push_slice(&s);
+    check(&b, &m);
+    let c = b.finish_cloned();
+    assert!(c.len() == m.n);
+    assert!(c.offset() + c.len() <= 8 * c.values().len());
+    if N2 > 0 {
+        let i: usize = kani::any();
+        kani::assume(i < N2);
+        assert!(c.value(i) == s[i]);
+    }
+    check(&b, &m); // finish_cloned leaves the builder unchanged
+    check_finish(&mut b, &m);
+}
+// Contract (C19/C01) BooleanBufferBuilder::{finish, finish_cloned}: finish resets the builder (a second
+// sequence built afterwards shows none of the first one's bits); finish_cloned returns the current
+// sequence and leaves the builder unchanged.
+// @unit name=bbb_finish_reuse_13_9 props=C19,C01 kind=bounded bound=ops=4_shape_(n1,n2)=(13,9)_values_symbolic fns=BooleanBufferBuilder::finish,BooleanBufferBuilder::finish_cloned tier=thorough timeout=300 note=not_confirmed_under_load
+inst!(bbb_finish_reuse_13_9, 16, seq_finish_reuse::<13, 9>());
+// @unit name=bbb_finish_reuse_64_65 props=C19,C01 kind=bounded bound=ops=4_shape_(n1,n2)=(64,65)_values_symbolic fns=BooleanBufferBuilder::finish,BooleanBufferBuilder::finish_cloned tier=thorough timeout=300 note=not_confirmed_under_load
+inst!(bbb_finish_reuse_64_65, 68, seq_finish_reuse::<64, 65>());
+// @unit name=bbb_finish_reuse_0_0 props=C19,C01 kind=bounded bound=ops=4_shape_(n1,n2)=(0,0)_values_symbolic fns=BooleanBufferBuilder::finish,BooleanBufferBuilder::finish_cloned tier=thorough timeout=300 note=not_confirmed_under_load
+inst!(bbb_finish_reuse_0_0, 12, seq_finish_reuse::<0, 0>());
+
+fn seq_reserve<const N1: usize, const R: usize>() {
+    let (v1, x): (bool, bool) = (kani::any(), kani::any());
+    let mut b = BooleanBufferBuilder::new(0);
+    let mut m = Model::new();
+    b.append_n(N1, v1); m.push_n(N1, v1);
+    b.reserve(R);
+    assert!(b.capacity() >= N1 + R);
+    check(&b, &m); // reserve does not change the observable sequence
+    b.append(x); m.push(x);
+    check(&b, &m);
+    check_finish(&mut b, &m);
+    kani::cover!(v1 && !x);
+}
+// Contract (C19/C01) BooleanBufferBuilder::reserve(r): capacity() >= len + r afterwards, observable
+// sequence unchanged, later appends behave as before.
+// @unit name=bbb_reserve_13_600 props=C19,C01 kind=bounded bound=ops=3_shape_(n1,reserve)=(13,600) fns=BooleanBufferBuilder::reserve,BooleanBufferBuilder::capacity tier=thorough timeout=240 note=not_confirmed_under_load
+inst!(bbb_reserve_13_600, 16, seq_reserve::<13, 600>());
+// @unit name=bbb_reserve_0_1 props=C19,C01 kind=bounded bound=ops=3_shape_(n1,reserve)=(0,1) fns=BooleanBufferBuilder::reserve,BooleanBufferBuilder::capacity tier=thorough timeout=240 note=not_confirmed_under_load
+inst!(bbb_reserve_0_1, 12, seq_reserve::<0, 1>());
+// @unit name=bbb_reserve_64_0 props=C19,C01 kind=bounded bound=ops=3_shape_(n1,reserve)=(64,0) fns=BooleanBufferBuilder::reserve,BooleanBufferBuilder::capacity tier=thorough timeout=240 note=not_confirmed_under_load
+inst!(bbb_reserve_64_0, 67, seq_reserve::<64, 0>());
+
+fn seq_append_word<const W: usize, const COUNT: usize>() {
+    let (v1, x): (bool, bool) = (kani::any(), kani::any());
+    let word: u64 = kani::any();
+    let mut b = BooleanBufferBuilder::new(0);
+    let mut m = Model::new();
+    b.append_n(W, v1); m.push_n(W, v1);
+    b.append_word(word, COUNT);
+    let mut k = 0;
+    while k < COUNT { m.push((word >> k) & 1 == 1); k += 1; }
+    check(&b, &m);
+    b.append(x); m.push(x);
+    check(&b, &m);
+    check_finish(&mut b, &m);
+    kani::cover!(v1 && !x && word == u64::MAX);
+    kani::cover!(!v1 && x && word == 1 << 63);
+}
+// Contract (C19/C01) BooleanBufferBuilder::append_word(word, count), count <= 64: after append_n(w, v)
+// the call appends exactly the count low bits of the symbolic word, LSB first (bits >= count of the
+// word are not read as data), leaves the first w values unchanged, and a following append lands
+// right after them.
+// @unit name=bbb_append_word_0_64 props=C19,C01 kind=bounded bound=ops=3_grid_(bit_offset,count)=(0,64)_word_symbolic fns=BooleanBufferBuilder::append_word tier=thorough timeout=240 note=not_confirmed_under_load
+inst!(bbb_append_word_0_64, 67, seq_append_word::<0, 64>());
+// @unit name=bbb_append_word_1_63 props=C19,C01 kind=bounded bound=ops=3_grid_(bit_offset,count)=(1,63)_word_symbolic fns=BooleanBufferBuilder::append_word tier=thorough timeout=240 note=not_confirmed_under_load
+inst!(bbb_append_word_1_63, 66, seq_append_word::<1, 63>());
+// @unit name=bbb_append_word_7_64 props=C19,C01 kind=bounded bound=ops=3_grid_(bit_offset,count)=(7,64)_word_symbolic fns=BooleanBufferBuilder::append_word tier=thorough timeout=240 note=not_confirmed_under_load
+inst!(bbb_append_word_7_64, 67, seq_append_word::<7, 64>());
+// @unit name=bbb_append_word_0_0 props=C19,C01 kind=bounded bound=ops=3_grid_(bit_offset,count)=(0,0)_word_symbolic fns=BooleanBufferBuilder::append_word tier=thorough timeout=240 note=not_confirmed_under_load
+inst!(bbb_append_word_0_0, 12, seq_append_word::<0, 0>());
+// @unit name=bbb_append_word_0_1 props=C19,C01 kind=bounded bound=ops=3_grid_(bit_offset,count)=(0,1)_word_symbolic fns=BooleanBufferBuilder::append_word tier=thorough timeout=240 note=not_confirmed_under_load
+inst!(bbb_append_word_0_1, 12, seq_append_word::<0, 1>());
+// @unit name=bbb_append_word_0_63 props=C19,C01 kind=bounded bound=ops=3_grid_(bit_offset,count)=(0,63)_word_symbolic fns=BooleanBufferBuilder::append_word tier=thorough timeout=240 note=not_confirmed_under_load
+inst!(bbb_append_word_0_63, 66, seq_append_word::<0, 63>());
+// @unit name=bbb_append_word_1_0 props=C19,C01 kind=bounded bound=ops=3_grid_(bit_offset,count)=(1,0)_word_symbolic fns=BooleanBufferBuilder::append_word tier=thorough timeout=240 note=not_confirmed_under_load
+inst!(bbb_append_word_1_0, 12, seq_append_word::<1, 0>());
+// @unit name=bbb_append_word_1_1 props=C19,C01 kind=bounded bound=ops=3_grid_(bit_offset,count)=(1,1)_word_symbolic fns=BooleanBufferBuilder::append_word tier=thorough timeout=240 note=not_confirmed_under_load
+inst!(bbb_append_word_1_1, 12, seq_append_word::<1, 1>());
+// @unit name=bbb_append_word_1_64 props=C19,C01 kind=bounded bound=ops=3_grid_(bit_offset,count)=(1,64)_word_symbolic fns=BooleanBufferBuilder::append_word tier=thorough timeout=240 note=not_confirmed_under_load
+inst!(bbb_append_word_1_64, 67, seq_append_word::<1, 64>());
+// @unit name=bbb_append_word_7_0 props=C19,C01 kind=bounded bound=ops=3_grid_(bit_offset,count)=(7,0)_word_symbolic fns=BooleanBufferBuilder::append_word tier=thorough timeout=240 note=not_confirmed_under_load
+inst!(bbb_append_word_7_0, 12, seq_append_word::<7, 0>());
+// @unit name=bbb_append_word_7_1 props=C19,C01 kind=bounded bound=ops=3_grid_(bit_offset,count)=(7,1)_word_symbolic fns=BooleanBufferBuilder::append_word tier=thorough timeout=240 note=not_confirmed_under_load
+inst!(bbb_append_word_7_1, 12, seq_append_word::<7, 1>());
+// @unit name=bbb_append_word_7_63 props=C19,C01 kind=bounded bound=ops=3_grid_(bit_offset,count)=(7,63)_word_symbolic fns=BooleanBufferBuilder::append_word tier=thorough timeout=240 note=not_confirmed_under_load
+inst!(bbb_append_word_7_63, 66, seq_append_word::<7, 63>());
+// @unit name=bbb_append_word_61_64 props=C19,C01 kind=bounded bound=ops=3_grid_(bit_offset,count)=(61,64)_word_symbolic fns=BooleanBufferBuilder::append_word tier=thorough timeout=240 note=not_confirmed_under_load
+inst!(bbb_append_word_61_64, 67, seq_append_word::<61, 64>());
+// @unit name=bbb_append_word_64_33 props=C19,C01 kind=bounded bound=ops=3_grid_(bit_offset,count)=(64,33)_word_symbolic fns=BooleanBufferBuilder::append_word tier=thorough timeout=240 note=not_confirmed_under_load
+inst!(bbb_append_word_64_33, 67, seq_append_word::<64, 33>());
+// @unit name=bbb_append_word_3_61 props=C19,C01 kind=bounded bound=ops=3_grid_(bit_offset,count)=(3,61)_word_symbolic fns=BooleanBufferBuilder::append_word tier=thorough timeout=240 note=not_confirmed_under_load
+inst!(bbb_append_word_3_61, 64, seq_append_word::<3, 61>());
+// @unit name=bbb_append_word_5_58 props=C19,C01 kind=bounded bound=ops=3_grid_(bit_offset,count)=(5,58)_word_symbolic fns=BooleanBufferBuilder::append_word tier=thorough timeout=240 note=not_confirmed_under_load
+inst!(bbb_append_word_5_58, 61, seq_append_word::<5, 58>());
+// @unit name=bbb_append_word_7_60 props=C19,C01 kind=bounded bound=ops=3_grid_(bit_offset,count)=(7,60)_word_symbolic fns=BooleanBufferBuilder::append_word tier=thorough timeout=240 note=not_confirmed_under_load
+inst!(bbb_append_word_7_60, 63, seq_append_word::<7, 60>());
+// @unit name=bbb_append_word_2_62 props=C19,C01 kind=bounded bound=ops=3_grid_(bit_offset,count)=(2,62)_word_symbolic fns=BooleanBufferBuilder::append_word tier=thorough timeout=240 note=not_confirmed_under_load
+inst!(bbb_append_word_2_62, 65, seq_append_word::<2, 62>());
+// @unit name=bbb_append_word_6_59 props=C19,C01 kind=bounded bound=ops=3_grid_(bit_offset,count)=(6,59)_word_symbolic fns=BooleanBufferBuilder::append_word tier=thorough timeout=240 note=not_confirmed_under_load
+inst!(bbb_append_word_6_59, 62, seq_append_word::<6, 59>());
+
+fn seq_extend_trusted<const W: usize, const K: usize>() {
+    let (v1, x): (bool, bool) = (kani::any(), kani::any());
+    let s: [bool; K] = kani::any();
+    let mut b = BooleanBufferBuilder::new(0);
+    let mut m = Model::new();
+    b.append_n(W, v1); m.push_n(W, v1);
+    unsafe { b.extend_trusted_len(s.iter().copied()) };
+    m.push_slice(&s);
+    check(&b, &m);
+    b.append(x); m.push(x);
+    check(&b, &m);
+    check_finish(&mut b, &m);
+    kani::cover!(v1 && !x);
+    kani::cover!(!v1 && x);
+}
+// Contract (C19/C01) BooleanBufferBuilder::extend_trusted_len(iter) (iterator with exact size hint):
+// after append_n(w, v) the call appends exactly the items of the iterator in order (through
+// MutableBuffer::extend_bool_trusted_len: unaligned prefix up to the next 64-bit boundary, whole
+// 64-bit words, suffix), leaves the first w values unchanged, and a following append lands right
+// after them.
+// @unit name=bbb_extend_trusted_3_70 props=C19,C01 kind=bounded bound=ops=3_grid_(bit_offset,items)=(3,70)_values_symbolic fns=BooleanBufferBuilder::extend_trusted_len,MutableBuffer::extend_bool_trusted_len tier=thorough timeout=400 note=not_confirmed_under_load
+inst!(bbb_extend_trusted_3_70, 73, seq_extend_trusted::<3, 70>());
+// @unit name=bbb_extend_trusted_0_64 props=C19,C01 kind=bounded bound=ops=3_grid_(bit_offset,items)=(0,64)_values_symbolic fns=BooleanBufferBuilder::extend_trusted_len,MutableBuffer::extend_bool_trusted_len tier=thorough timeout=400 note=not_confirmed_under_load
+inst!(bbb_extend_trusted_0_64, 67, seq_extend_trusted::<0, 64>());
+// @unit name=bbb_extend_trusted_3_5 props=C19,C01 kind=bounded bound=ops=3_grid_(bit_offset,items)=(3,5)_values_symbolic fns=BooleanBufferBuilder::extend_trusted_len,MutableBuffer::extend_bool_trusted_len tier=thorough timeout=400 note=not_confirmed_under_load
+inst!(bbb_extend_trusted_3_5, 67, seq_extend_trusted::<3, 5>());
+// @unit name=bbb_extend_trusted_61_10 props=C19,C01 kind=bounded bound=ops=3_grid_(bit_offset,items)=(61,10)_values_symbolic fns=BooleanBufferBuilder::extend_trusted_len,MutableBuffer::extend_bool_trusted_len tier=thorough timeout=400 note=not_confirmed_under_load
+inst!(bbb_extend_trusted_61_10, 67, seq_extend_trusted::<61, 10>());
+// @unit name=bbb_extend_trusted_64_130 props=C19,C01 kind=bounded bound=ops=3_grid_(bit_offset,items)=(64,130)_values_symbolic fns=BooleanBufferBuilder::extend_trusted_len,MutableBuffer::extend_bool_trusted_len tier=thorough timeout=400 note=not_confirmed_under_load
+inst!(bbb_extend_trusted_64_130, 133, seq_extend_trusted::<64, 130>());
+// @unit name=bbb_extend_trusted_5_0 props=C19,C01 kind=bounded bound=ops=3_grid_(bit_offset,items)=(5,0)_values_symbolic fns=BooleanBufferBuilder::extend_trusted_len,MutableBuffer::extend_bool_trusted_len tier=thorough timeout=400 note=not_confirmed_under_load
+inst!(bbb_extend_trusted_5_0, 67, seq_extend_trusted::<5, 0>());
+// @unit name=bbb_extend_trusted_7_200 props=C19,C01 kind=bounded bound=ops=3_grid_(bit_offset,items)=(7,200)_values_symbolic fns=BooleanBufferBuilder::extend_trusted_len,MutableBuffer::extend_bool_trusted_len tier=thorough timeout=400 note=not_confirmed_under_load
+inst!(bbb_extend_trusted_7_200, 203, seq_extend_trusted::<7, 200>());
+// @unit name=bbb_extend_trusted_60_4 props=C19,C01 kind=bounded bound=ops=3_grid_(bit_offset,items)=(60,4)_values_symbolic fns=BooleanBufferBuilder::extend_trusted_len,MutableBuffer::extend_bool_trusted_len tier=thorough timeout=400 note=not_confirmed_under_load
+inst!(bbb_extend_trusted_60_4, 67, seq_extend_trusted::<60, 4>());
+// @unit name=bbb_extend_trusted_8_56 props=C19,C01 kind=bounded bound=ops=3_grid_(bit_offset,items)=(8,56)_values_symbolic fns=BooleanBufferBuilder::extend_trusted_len,MutableBuffer::extend_bool_trusted_len tier=thorough timeout=400 note=not_confirmed_under_load
+inst!(bbb_extend_trusted_8_56, 67, seq_extend_trusted::<8, 56>());
+
+fn seq_new_from_buffer<const NB: usize, const LEN: usize, const K: usize>() {
+    let bytes: [u8; NB] = any_bytes();
+    let mut mb = MutableBuffer::new(0);
+    mb.extend_from_slice(&bytes);
+    let mut b = BooleanBufferBuilder::new_from_buffer(mb, LEN);
+    let mut m = Model::new();
+    m.push_bits(&bytes, 0, LEN);
+    check(&b, &m);
+    // the bits of the buffer at positions >= LEN are not part of the sequence: growing yields false
+    b.advance(K); m.push_n(K, false);
+    check(&b, &m);
+    // as_slice_mut exposes the same bytes as as_slice / get_bit
+    if m.n > 0 {
+        let j: usize = kani::any();
+        kani::assume(j < m.n);
+        b.as_slice_mut()[j / 8] ^= 1 << (j % 8);
+        m.v[j] = !m.v[j];
+        check(&b, &m);
+    }
+    let out = b.build();
+    assert!(out.len() == m.n && out.offset() + out.len() <= 8 * out.values().len());
+    if m.n > 0 {
+        let i: usize = kani::any();
+        kani::assume(i < m.n);
+        assert!(out.value(i) == m.v[i]);
+        kani::cover!(out.value(i) && i >= LEN);
+        kani::cover!(!out.value(i) && i < LEN);
+    }
+    kani::cover!(out.len() == LEN + K);
+}
+// Contract (C19/C01) BooleanBufferBuilder::{new_from_buffer, as_slice_mut, build}: new_from_buffer(buf,
+// len) with len <= 8*bytes is the sequence of the first len bits of buf (symbolic bytes; bits at
+// positions >= len are not read as data: advance(k) afterwards yields k false values); a bit flipped
+// through as_slice_mut is the bit read by get_bit / as_slice; build returns the sequence as a
+// BooleanBuffer inside its byte buffer.
+// @unit name=bbb_new_from_buffer_3_13_6 props=C19,C01 kind=bounded bound=grid_(bytes,len,advance)=(3,13,6) fns=BooleanBufferBuilder::new_from_buffer,BooleanBufferBuilder::as_slice_mut,BooleanBufferBuilder::as_slice,BooleanBufferBuilder::build tier=thorough timeout=300 note=not_confirmed_under_load
+inst!(bbb_new_from_buffer_3_13_6, 16, seq_new_from_buffer::<3, 13, 6>());
+// @unit name=bbb_new_from_buffer_9_64_3 props=C19,C01 kind=bounded bound=grid_(bytes,len,advance)=(9,64,3) fns=BooleanBufferBuilder::new_from_buffer,BooleanBufferBuilder::as_slice_mut,BooleanBufferBuilder::as_slice,BooleanBufferBuilder::build tier=thorough timeout=300 note=not_confirmed_under_load
+inst!(bbb_new_from_buffer_9_64_3, 67, seq_new_from_buffer::<9, 64, 3>());
+// @unit name=bbb_new_from_buffer_2_16_1 props=C19,C01 kind=bounded bound=grid_(bytes,len,advance)=(2,16,1) fns=BooleanBufferBuilder::new_from_buffer,BooleanBufferBuilder::as_slice_mut,BooleanBufferBuilder::as_slice,BooleanBufferBuilder::build tier=thorough timeout=300 note=not_confirmed_under_load
+inst!(bbb_new_from_buffer_2_16_1, 19, seq_new_from_buffer::<2, 16, 1>());
+// @unit name=bbb_new_from_buffer_1_0_9 props=C19,C01 kind=bounded bound=grid_(bytes,len,advance)=(1,0,9) fns=BooleanBufferBuilder::new_from_buffer,BooleanBufferBuilder::as_slice_mut,BooleanBufferBuilder::as_slice,BooleanBufferBuilder::build tier=thorough timeout=300 note=not_confirmed_under_load
+inst!(bbb_new_from_buffer_1_0_9, 12, seq_new_from_buffer::<1, 0, 9>());
+
+// Contract (C19/C01) BooleanBufferBuilder::new_from_buffer rejection direction (may-reject): for a 3-byte
+// buffer and any usize len, whenever the call returns, len <= 24 and the builder has that length.
+// @unit name=bbb_new_from_buffer_rejects props=C19,C01 kind=bounded bound=buffer_bytes=3_len_full_usize fns=BooleanBufferBuilder::new_from_buffer tier=thorough timeout=200 mayreject=1 note=not_confirmed_under_load
+#[kani::proof]
+#[kani::unwind(6)]
+#[kani::stub(alloc::fmt::format, stub_format)]
+fn bbb_new_from_buffer_rejects() {
+    let bytes: [u8; 3] = any_bytes();
+    let mut mb = MutableBuffer::new(0);
+    mb.extend_from_slice(&bytes);
+    let len: usize = kani::any();
+    let b = BooleanBufferBuilder::new_from_buffer(mb, len);
+    assert!(len <= 24 && b.len() == len && b.as_slice().len() == (len + 7) / 8);
+    kani::cover!(len == 24);
+    kani::cover!(len == 0);
+    kani::cover!(len == 17);
+}
+
+fn seq_convert<const N1: usize, const K: usize, const VARIANT: u8>() {
+    let v1: bool = kani::any();
+    let s: [bool; K] = kani::any();
+    let mut b = BooleanBufferBuilder::new(3);
+    let mut m = Model::new();
+    b.append_n(N1, v1); m.push_n(N1, v1);
+    b.append_slice(&s); m.push_slice(&s);
+    let i: usize = kani::any();
+    kani::assume(i < m.n);
+    set_skews([0; 6]);
+    match VARIANT {
+        0 => { let o = b.build(); assert!(o.len() == m.n && o.value(i) == m.v[i]); }
+        1 => { let o: BooleanBuffer = b.into(); assert!(o.len() == m.n && o.value(i) == m.v[i] && o.offset() + o.len() <= 8 * o.values().len()); }
+        2 => { let o: Buffer = b.into(); assert!(o.len() == (m.n + 7) / 8 && bit(o.as_slice(), i) == m.v[i]); }
+        _ => {
+            let o: NullBuffer = b.into();
+            let mut nulls = 0usize;
+            let mut k = 0;
+            while k < m.n { if !m.v[k] { nulls += 1; } k += 1; }
+            assert!(o.len() == m.n && o.is_valid(i) == m.v[i] && o.null_count() == nulls);
+        }
+    }
+    kani::cover!(m.v[i]);
+    kani::cover!(!m.v[i]);
+}
+// Contract (C19/C01) BooleanBufferBuilder::build and the conversions into BooleanBuffer / Buffer /
+// NullBuffer (VARIANT 0/1/2/3): the result holds exactly the model sequence (Buffer: exactly
+// ceil(len/8) bytes, bit i = value i; NullBuffer: validity = sequence and null_count = number of
+// false values exactly).
+// @unit name=bbb_convert_5_6_3 props=C19,C01 kind=bounded bound=shape_(n1,slice_len,variant)=(5,6,3)_values_symbolic fns=BooleanBufferBuilder::build,BooleanBufferBuilder::into tier=thorough timeout=300 note=not_confirmed_under_load
+inst!(bbb_convert_5_6_3, 14, seq_convert::<5, 6, 3>());
+// @unit name=bbb_convert_5_6_0 props=C19,C01 kind=bounded bound=shape_(n1,slice_len,variant)=(5,6,0)_values_symbolic fns=BooleanBufferBuilder::build,BooleanBufferBuilder::into tier=thorough timeout=300 note=not_confirmed_under_load
+inst!(bbb_convert_5_6_0, 14, seq_convert::<5, 6, 0>());
+// @unit name=bbb_convert_60_9_1 props=C19,C01 kind=bounded bound=shape_(n1,slice_len,variant)=(60,9,1)_values_symbolic fns=BooleanBufferBuilder::build,BooleanBufferBuilder::into tier=thorough timeout=300 note=not_confirmed_under_load
+inst!(bbb_convert_60_9_1, 72, seq_convert::<60, 9, 1>());
+// @unit name=bbb_convert_5_6_2 props=C19,C01 kind=bounded bound=shape_(n1,slice_len,variant)=(5,6,2)_values_symbolic fns=BooleanBufferBuilder::build,BooleanBufferBuilder::into tier=thorough timeout=300 note=not_confirmed_under_load
+inst!(bbb_convert_5_6_2, 14, seq_convert::<5, 6, 2>());
